@@ -99,6 +99,9 @@ type Property struct {
 	Real, Simulated []string
 	// RequiredProbes must all be non-zero at the end of a thorough batch.
 	RequiredProbes []string
+	// Finish, if set, runs once after the batch; an error is harness trouble
+	// (exit 2), never a violation.
+	Finish func(st *Stats) error
 }
 
 // Registry of properties by id (and sub-configuration).
